@@ -21,6 +21,8 @@ use tracing::warn;
 
 mod imp;
 pub(crate) use imp::{Child, ChildAccumulator, ChildFds};
+#[cfg(nextest_verif)]
+pub use imp::verif_imp;
 
 #[derive(Clone, Debug)]
 pub(crate) struct LocalExecuteContext<'a> {
